@@ -342,7 +342,7 @@ func selSafe(st *streams.Stream, api publictypes.APIStreamI, t publictypes.Strea
 	return sel(st, api, t)
 }
 
-func e2eRun(st *streams.Stream, t *E2ETxn, statusFilters bool) {
+func e2eRun(st *streams.Stream, t *E2ETxn) {
 	txnSeq++
 	id := fmt.Sprintf("e%d", txnSeq)
 	var events []Event
@@ -364,9 +364,9 @@ func e2eRun(st *streams.Stream, t *E2ETxn, statusFilters bool) {
 	if !t.Resp {
 		t.SelReq = sel(st, api, publictypes.StreamTypeRequest)
 	}
-	if t.Resp || !statusFilters { // a request stream has no response object to read a status from
-		t.SelRes = selSafe(st, api, publictypes.StreamTypeResponse)
-	}
+	// (for a request: the lookup executeReq makes after a hand-over - the stream typed
+	// as a response, no response object)
+	t.SelRes = selSafe(st, api, publictypes.StreamTypeResponse)
 	before := st.GetFlowInvocations()
 	evMu.Lock()
 	evSink = &events
@@ -631,16 +631,18 @@ func e2eConstraints(f *EFilter, system bool, t *E2ETxn, asResp bool) int {
 		v = vMay
 	}
 	if asResp {
-		if len(f.Status) > 0 && t.Resp {
+		if len(f.Status) > 0 {
+			// a status requirement is met by a response carrying one of the codes; a
+			// request that a processor answered has no response: not met
 			ok := false
 			for _, s := range f.Status {
-				ok = ok || s == t.Status
+				ok = ok || (t.Resp && s == t.Status)
 			}
 			if !ok {
 				return vNo
 			}
 		}
-		if len(f.Headers)+len(f.Query) > 0 || (len(f.Status) > 0 && !t.Resp) {
+		if len(f.Headers)+len(f.Query) > 0 {
 			v = vMay
 		}
 		return v
@@ -738,6 +740,18 @@ func e2eMonitor(k *E2ECase, gs []GFlow, t *E2ETxn) []c.Hit {
 		}
 	}
 	if t.Result == "error" {
+		// an error is never what the text asks for; the open finding F-C04d (the
+		// processor that answered has no node on the response side of its flow) has
+		// its own signature
+		var d *Event
+		if t.orc != nil && !t.Resp {
+			d = droppedAnswer(gs, t.Events, t.orc)
+		}
+		if h, ok := droppedHit(d, t.Result, t.ErrText); ok {
+			hit(h.Signature, h.Demanded, h.Observed)
+		} else {
+			hit("e2e:unexpected-error", "the transaction is handled", "error: "+t.ErrText)
+		}
 		return hits
 	}
 	// (4) early response: it is the final action, unchanged; nothing of a later
@@ -1064,22 +1078,11 @@ var e2ePatterns = []string{
 // (a quota file holds one host)
 var e2eQuotaPatterns = []string{"e2e.test/v1/items", "e2e.test/*", "e2e.test/v1/*", "e2e.test/v2/items", "e2e.test/v1/{id}"}
 
-func hasReqGen(cfg *Config) bool {
-	for _, f := range cfg.Flows {
-		for _, p := range f.Procs {
-			if p.Type == tGen {
-				return true
-			}
-		}
-	}
-	return false
-}
-
 func e2eGenFilters(r *c.Rng, cfg *Config) map[string]EFilter {
 	out := map[string]EFilter{}
-	// GetFlow for a request typed as a response reads the (absent) response's
-	// status: status requirements only where no processor can answer a request
-	statusOK := !hasReqGen(cfg)
+	// status requirements also next to processors that answer requests: the second
+	// GetFlow (the request typed as a response, no response object) does not satisfy
+	// them (repo fix 22527f1; before it that lookup dereferenced the missing response)
 	for i := range cfg.Flows {
 		f := &cfg.Flows[i]
 		flt := EFilter{URL: c.Pick(r, e2ePatterns)}
@@ -1095,7 +1098,7 @@ func e2eGenFilters(r *c.Rng, cfg *Config) map[string]EFilter {
 		if r.Chance(1, 8) {
 			flt.Query = []KV{{"v", "1"}}
 		}
-		if statusOK && r.Chance(1, 4) {
+		if r.Chance(1, 4) {
 			flt.Status = c.Pick(r, [][]int{{200}, {404}, {200, 201}})
 		}
 		f.URL = flt.URL
@@ -1234,15 +1237,11 @@ func e2eExec(o *c.Out, k *E2ECase, label string) {
 		return
 	}
 	o.Count("e2e:configs:" + label)
-	statusFilters := false
-	for _, f := range k.Filters {
-		statusFilters = statusFilters || len(f.Status) > 0
-	}
 	r := o.Rng.Fork(uint64(len(k.Txns))*977 + 13)
 	kept := 0
 	for i := range k.Txns {
 		t := &k.Txns[i]
-		e2eRun(st, t, statusFilters)
+		e2eRun(st, t)
 		ct := Txn{Dir: "req", URL: t.URL, Events: t.Events}
 		if t.Resp {
 			ct.Dir = "res"
@@ -1290,6 +1289,18 @@ func e2eExec(o *c.Out, k *E2ECase, label string) {
 			rich = true
 		}
 		o.Count("e2e:txn:result=" + t.Result)
+		if !t.Resp && t.orc != nil {
+			// a request answered by a processor of a flow that lists status codes: the
+			// flow is not found again by the second lookup (no response object)
+			for _, e := range t.Events {
+				if e.Dir == "req" && t.orc.get(e.Flow, e.Key, "req").Early {
+					if len(k.Filters[e.Flow].Status) > 0 {
+						o.Count("e2e:txn:answered-in-flow-with-status-filter")
+					}
+					break
+				}
+			}
+		}
 		o.Count(fmt.Sprintf("e2e:txn:flows-ran=%d", len(flows)))
 		if len(t.Events) == 0 {
 			o.Count("e2e:txn:nothing-selected")
@@ -1346,7 +1357,24 @@ func e2eFixed() []E2ECase {
 		sort.Slice(l, func(i, j int) bool { return l[i].K < l[j].K })
 		return l
 	}
+	// a status requirement on the flow whose processor answers the request: the
+	// request is answered, the flow is not found again (no response object), the
+	// other flow runs its response side from its entry point
+	withStatus := Config{Flows: []FlowCfg{
+		{Name: "A", URL: u, Procs: []Proc{filt("f1"), gen1("g"), filt("w"), filt("t1")},
+			Req: []Conn{s2p("f1"), p2p("f1", "hit", "g"), p2s("f1", "miss")},
+			Res: []Conn{s2p("w"), p2s("w", "hit"), p2p("g", "", "t1"), p2s("t1", "hit")}},
+		{Name: "B", URL: u, Procs: []Proc{filt("f2"), filt("t2")},
+			Req: []Conn{s2p("f2"), p2s("f2", "hit")},
+			Res: []Conn{s2p("t2"), p2s("t2", "hit")}}}}
 	return []E2ECase{
+		{Config: withStatus, Filters: map[string]EFilter{"A": {URL: u, Status: []int{200}}, "B": {URL: u}},
+			Txns: []E2ETxn{
+				{URL: u, Method: "POST", Headers: hdr("x-f1", "x-f2", "x-t1", "x-t2")},
+				{URL: u, Method: "GET", Headers: hdr("x-f2")},
+				{Resp: true, URL: u, Method: "GET", Status: 200, Headers: hdr("x-w", "x-t2")},
+				{Resp: true, URL: u, Method: "GET", Status: 404, Headers: hdr("x-w", "x-t2")},
+			}},
 		{Config: twoUsers, Filters: map[string]EFilter{"A": {URL: "e2e.test/v1/*"}, "B": {URL: u, Methods: []string{"POST"}}},
 			Txns: []E2ETxn{
 				{URL: u, Method: "POST", Headers: hdr("x-f1", "x-f2", "x-w", "x-t2")},
